@@ -1,1 +1,205 @@
-/-! Property theorems for C09 (stub: none yet). -/
+import TxdbusModel.Proofs.Client.LifecycleLost
+import TxdbusModel.Proofs.Client.LifecycleWalk
+/-!
+Property C09 - connecting always concludes; a lost connection fails all pending work once.
+
+Code model: `TxdbusModel/Client/Lifecycle.lean` (`step`, `run`, `connect`; variant `.repaired` = /repo after
+fixes/C09-01..05) and `TxdbusModel/Client/Endpoints.lean`.  Every theorem quantifies over ALL event
+histories `h : List Ev` (no bound on length, on the number of calls, callbacks or proxies) and thereby over
+all reaction assignments: the reaction of every call / callback is part of the event that creates it.
+-/
+namespace Txdbus.Client.Lifecycle
+open Txdbus.Client.Endpoints
+
+/-! ## C09.1  the connect Deferred fires at most once, and has fired as soon as the attempt concluded -/
+
+/-- Over every event history: the Deferred returned by `connect` has fired at most once; it has fired
+exactly when the attempt is over; it fired with the connection exactly when Hello succeeded; and it HAS
+fired as soon as the history contains a Hello reply, a Hello error, a transport close in any phase, an
+authentication failure, or the failure of the last address of the list (`concludes`) - and stays fired;
+with no usable address at all it fires at once. -/
+theorem connect_fires_once (eps : List Endpoint) (h : List Ev) :
+    (run .repaired (connect eps) h).fired.length ≤ 1 ∧
+    ((run .repaired (connect eps) h).phase.concluded = true ↔ (run .repaired (connect eps) h).fired.length = 1) ∧
+    ((run .repaired (connect eps) h).fired = [.connection] ↔
+      ((run .repaired (connect eps) h).phase = .ready ∨ (run .repaired (connect eps) h).phase = .lost)) ∧
+    (∀ (h₁ : List Ev) (e : Ev) (h₂ : List Ev), h = h₁ ++ e :: h₂ →
+      concludes (run .repaired (connect eps) h₁) e = true → (run .repaired (connect eps) h).fired.length = 1) ∧
+    (eps = [] → (run .repaired (connect eps) h).fired.length = 1) := by
+  obtain ⟨hi, _⟩ := reachable_inv eps h
+  have hle : (run .repaired (connect eps) h).fired.length ≤ 1 := by
+    cases hc : (run .repaired (connect eps) h).phase.concluded with
+    | true => exact Nat.le_of_eq (hi.done hc)
+    | false => simp [hi.notYet hc]
+  refine ⟨hle, ⟨hi.done, ?_⟩, ⟨?_, hi.kind⟩, ?_, ?_⟩
+  · intro hl
+    cases hc : (run .repaired (connect eps) h).phase.concluded with
+    | true => rfl
+    | false => simp [hi.notYet hc] at hl
+  · intro hf
+    by_cases hp : (run .repaired (connect eps) h).phase = .ready ∨ (run .repaired (connect eps) h).phase = .lost
+    · exact hp
+    · exact absurd (by simp [hf]) (hi.notConn hp)
+  · intro h₁ e h₂ hh hc
+    subst hh
+    rw [run_append]
+    simp only [run]
+    obtain ⟨hi₁, _⟩ := reachable_inv eps h₁
+    have h1 := concludes_step _ e hi₁ hc
+    have h2 := concluded_run h₂ _ h1
+    have hi₂ := inv1_run h₂ _ (inv1_step _ e hi₁)
+    exact hi₂.done h2
+  · intro he
+    subst he
+    exact (inv1_run h _ (inv1_connect [])).done (concluded_run h _ (by simp [connect, fire, St.empty, Phase.concluded]))
+
+/-! ## C09.2  addresses are tried in listed order; the first reachable one is used -/
+
+/-- `tagged` is the address list with, for each address, whether a connection attempt on it succeeds.
+Running `connect` against that reactor tries exactly the unreachable addresses that precede the first
+reachable one, in listed order, then that one, and uses it; when none is reachable the Deferred fails
+(ConnectError) and nothing is in use. -/
+theorem first_reachable_in_order (tagged : List (Endpoint × Bool)) :
+    attempts (run .repaired (connect (tagged.map (·.1))) (tagged.map (fun t => walkEv t.2))) =
+      (tagged.takeWhile (fun t => !t.2)).map (·.1) ++ ((tagged.find? (·.2)).map (·.1)).toList ∧
+    (match tagged.find? (·.2) with
+     | some t =>
+       (run .repaired (connect (tagged.map (·.1))) (tagged.map (fun t => walkEv t.2))).phase = .authenticating ∧
+       (run .repaired (connect (tagged.map (·.1))) (tagged.map (fun t => walkEv t.2))).current = some t.1 ∧
+       (run .repaired (connect (tagged.map (·.1))) (tagged.map (fun t => walkEv t.2))).fired = []
+     | none =>
+       (run .repaired (connect (tagged.map (·.1))) (tagged.map (fun t => walkEv t.2))).phase = .exhausted ∧
+       (run .repaired (connect (tagged.map (·.1))) (tagged.map (fun t => walkEv t.2))).current = none ∧
+       (run .repaired (connect (tagged.map (·.1))) (tagged.map (fun t => walkEv t.2))).fired =
+         [if tagged.isEmpty then .noAddress else .unreachable]) := by
+  have := walk_connect tagged
+  unfold expectedAttempts at this
+  exact this
+
+/-! ## C09.3  a lost connection fails all pending work once -/
+
+/-- In phase ready (after ANY history, hence for all reaction assignments), the transport close
+`connectionLost(reason)` appends `newLog` to the observable effects, in which
+ * every call that was pending has exactly one firing of its Deferred, and that firing is the errback
+   with the loss (`.lost` = the reason itself for a user call; IntrospectionFailed wrapping it for the
+   Introspect call behind `getRemoteObject`);
+ * the timer of every pending call that has one is cancelled exactly once, no other timer is touched,
+   and no DelayedCall remains in the reactor;
+ * every connection-level disconnect callback runs exactly once;
+ * every disconnect callback of every live proxy - created from explicit interfaces or by
+   introspection alike - runs exactly once;
+ * the connect Deferred does not fire again;
+and afterwards no event of the environment (timers, transport, peer) changes anything at all. -/
+theorem lost_fails_everything_once (eps : List Endpoint) (h : List Ev)
+    (hready : (run .repaired (connect eps) h).phase = .ready) :
+    ∃ newLog : List Fx,
+      (step .repaired (run .repaired (connect eps) h) .close).log = (run .repaired (connect eps) h).log ++ newLog ∧
+      (∀ c ∈ (run .repaired (connect eps) h).pending,
+          newLog.countP (Fx.completes c.serial) = 1 ∧
+          Fx.callErr c.serial (errKindOf c.kind) ∈ newLog ∧
+          (∀ r, c.kind = .user r → Fx.callErr c.serial .lost ∈ newLog) ∧
+          newLog.count (Fx.timerCancelled c.serial) = if c.timed then 1 else 0) ∧
+      (step .repaired (run .repaired (connect eps) h) .close).timers = [] ∧
+      (∀ cb ∈ (run .repaired (connect eps) h).dcCallbacks, newLog.count (Fx.connCb cb.id) = 1) ∧
+      (∀ p ∈ (run .repaired (connect eps) h).proxies, p.alive = true →
+          ∀ cb ∈ p.cbs, newLog.count (Fx.proxyCb p.id cb.id) = 1) ∧
+      (step .repaired (run .repaired (connect eps) h) .close).fired = (run .repaired (connect eps) h).fired ∧
+      (step .repaired (run .repaired (connect eps) h) .close).phase = .lost ∧
+      (∀ later : List Ev, (∀ e ∈ later, e.isEnv = true) →
+          run .repaired (step .repaired (run .repaired (connect eps) h) .close) later =
+            step .repaired (run .repaired (connect eps) h) .close) := by
+  obtain ⟨hi, hw⟩ := reachable_inv eps h
+  generalize run .repaired (connect eps) h = s at *
+  have hr : ReadyOk s := hw.ready hready
+  have hb : s.busName = true := hi.bus.mpr (Or.inl hready)
+  have hstep : step .repaired s .close = lost3 s := by
+    simp [step, St.transportOpen, hready, connectionLost_ready_eq s hb]
+  rw [hstep]
+  refine ⟨lossLog s, lost3_log s hr, ?_, lost3_timers s hr, loss_conncb_once s hr,
+    fun p hp ha cb hcb => loss_proxycb_once s hr p hp ha cb hcb, (lost3_basic s).2.1, (lost3_basic s).1, ?_⟩
+  · intro c hc
+    obtain ⟨h1, h2⟩ := loss_call_once s hr c hc
+    refine ⟨h1, h2, ?_, loss_timer_once s hr c hc⟩
+    intro r hk
+    simpa [hk, errKindOf] using h2
+  · intro later hl
+    exact lost_quiet_run later _ (lost3_basic s).1 (lost3_timers s hr) hl
+
+/-! ## The hypotheses are satisfiable; the theorems say something on concrete histories -/
+
+def exEp : Endpoint := { target := .tcp ['h'] 1, args := [] }
+def exUnix : Endpoint := { target := .unix ['/', 'b'], args := [] }
+
+/-- A ready connection with two calls in flight (one timed, one that retries), two connection-level
+callbacks (the first unregisters itself), an explicit and an introspected proxy of the same object. -/
+def exHistory : List Ev :=
+  [.attemptFails, .attemptConnects, .authProgress, .authOk, .helloReply,
+   .notify .unregisterSelf, .notify .nothing, .call true .newCall, .call false .registerAnother,
+   .proxyExplicit 7, .proxyIntrospect 7, .reply 3 true, .proxyNotify 0 .unregisterSelf, .proxyNotify 0 .nothing,
+   .proxyNotify 1 .newCall]
+
+example : (run .repaired (connect [exUnix, exEp]) exHistory).phase = .ready := by decide
+example : (run .repaired (connect [exUnix, exEp]) exHistory).pending.length = 2 := by decide
+example : concludes (run .repaired (connect [exEp]) [.attemptConnects]) .close = true := by decide
+example : ((run .repaired (connect [exUnix, exEp]) (exHistory ++ [.close])).log.drop 4) =
+    [.connCb 0, .connCb 1, .timerCancelled 1, .callErr 1 .lost, .callErr 2 .lost,
+     .proxyCb 0 2, .proxyCb 0 3, .proxyCb 1 4] := by decide
+
+/-! ## Witnesses: the unrepaired code (variant `.original`) violates the property at these inputs -/
+
+/-- F13: the transport closes during authentication and the connect Deferred never fires. -/
+theorem prefix_model_violates_connect_fires :
+    concludes (run .original (connect [exEp]) [.attemptConnects]) .close = true ∧
+    (run .original (connect [exEp]) [.attemptConnects, .close]).fired = [] ∧
+    (run .repaired (connect [exEp]) [.attemptConnects, .close]).fired = [.lostEarly] := by decide
+
+/-- F13, other points: after an authentication failure; before the Hello reply. -/
+theorem prefix_model_violates_connect_fires_other :
+    (run .original (connect [exEp]) [.attemptConnects, .authFailed]).fired = [] ∧
+    (run .original (connect [exEp]) [.attemptConnects, .authOk, .close]).fired = [] := by decide
+
+/-- F31: an errback that issues a new call while the pending table is walked: the walk dies, the second
+call is never failed, its timer stays in the reactor, the proxy callback never runs. -/
+theorem prefix_model_violates_lost_dict_changed_size :
+    let h := [.attemptConnects, .authOk, .helloReply, .call false .newCall, .call true .nothing,
+              .proxyIntrospect 0, .reply 3 true, .proxyNotify 0 .nothing, .close]
+    let s := run .original (connect [exEp]) h
+    Fx.crashed ∈ s.log ∧ s.log.countP (Fx.completes 2) = 0 ∧ s.timers = [2] ∧ s.log.count (Fx.proxyCb 0 0) = 0 ∧
+    (run .repaired (connect [exEp]) h).log.countP (Fx.completes 2) = 1 ∧
+    (run .repaired (connect [exEp]) h).timers = [] ∧
+    (run .repaired (connect [exEp]) h).log.count (Fx.proxyCb 0 0) = 1 := by decide
+
+/-- F14 (first half): the disconnect callback of a proxy created from explicit interfaces never runs. -/
+theorem prefix_model_violates_explicit_proxy :
+    let h := [.attemptConnects, .authOk, .helloReply, .proxyExplicit 0, .proxyNotify 0 .nothing, .close]
+    (run .original (connect [exEp]) h).log.count (Fx.proxyCb 0 0) = 0 ∧
+    (run .repaired (connect [exEp]) h).log.count (Fx.proxyCb 0 0) = 1 := by decide
+
+/-- F14 (second half): two live introspected proxies of the same object share one registry slot; the
+first one is never told. -/
+theorem prefix_model_violates_shared_slot :
+    let h := [.attemptConnects, .authOk, .helloReply, .proxyIntrospect 5, .reply 1 true, .proxyIntrospect 5,
+              .reply 2 true, .proxyNotify 0 .nothing, .proxyNotify 1 .nothing, .close]
+    (run .original (connect [exEp]) h).log.count (Fx.proxyCb 0 0) = 0 ∧
+    (run .original (connect [exEp]) h).log.count (Fx.proxyCb 1 1) = 1 ∧
+    (run .repaired (connect [exEp]) h).log.count (Fx.proxyCb 0 0) = 1 ∧
+    (run .repaired (connect [exEp]) h).log.count (Fx.proxyCb 1 1) = 1 := by decide
+
+/-- New finding: a disconnect callback that unregisters itself makes the next one be skipped
+(connection level and proxy level). -/
+theorem prefix_model_violates_self_unregister :
+    let h := [.attemptConnects, .authOk, .helloReply, .notify .unregisterSelf, .notify .nothing, .close]
+    (run .original (connect [exEp]) h).log.count (Fx.connCb 1) = 0 ∧
+    (run .repaired (connect [exEp]) h).log.count (Fx.connCb 1) = 1 := by decide
+
+#print axioms connect_fires_once
+#print axioms first_reachable_in_order
+#print axioms lost_fails_everything_once
+#print axioms prefix_model_violates_connect_fires
+#print axioms prefix_model_violates_connect_fires_other
+#print axioms prefix_model_violates_lost_dict_changed_size
+#print axioms prefix_model_violates_explicit_proxy
+#print axioms prefix_model_violates_shared_slot
+#print axioms prefix_model_violates_self_unregister
+
+end Txdbus.Client.Lifecycle
